@@ -51,6 +51,15 @@ func VerifC03Client(ncalls, sendBuffer, kindsA int) {
 			if kindsA == 1 && k > 0 && (kind == ckAsync || kind == ckCorrStream || kind == ckMulticast || kind == ckUnicast) {
 				vAssume(false) // quick tier: the later calls range over 5 representative types
 			}
+			if kindsA == 2 {
+				// burst mode: no-send-waiting one-way calls followed by a call of another kind
+				if k < ncalls-1 && kind != ckMulticastNoWait && kind != ckUnicastNoWait {
+					vAssume(false)
+				}
+				if k == ncalls-1 && kind != ckRPC && kind != ckQC && kind != ckUnicast {
+					vAssume(false)
+				}
+			}
 			calls[k] = fsNewCall(kind, k+1, 1)
 			if ckOneWay(kind) {
 				calls[k].req.tok = 200 + k + 1 // one-way: the scripted handler sends no reply
